@@ -43,8 +43,8 @@ EXTENDS Naturals, FiniteSets, Sequences, TLC, Emit
 CONSTANTS Configs,    \* set of configuration records explored
           PreStates   \* initial destination states, subset of {"absent", "Old"}
 
-VARIABLES cfg, pre, dest, tmp, pc, how, fcall, exc
-vars == <<cfg, pre, dest, tmp, pc, how, fcall, exc>>
+VARIABLES cfg, name, pre, dest, tmp, pc, how, fcall, exc
+vars == <<cfg, name, pre, dest, tmp, pc, how, fcall, exc>>
 
 (* For a ".zip" destination the content is the SEQUENCE OF MEMBERS of the archive: Old = the archive as it was  *)
 (* (byte for byte), New = exactly one member holding the new payload, OldNew = the previous member(s) followed  *)
@@ -92,7 +92,19 @@ CfgCommitOnInterrupt == [Cfg("commit_on_interrupt", "replace", "always", FALSE) 
 RejectedConfigs == HistoricConfigs \cup {CfgReplaceOnly, CfgGuardOnly, CfgSwallowClose, CfgZipAppend, CfgCommitOnInterrupt}
 AllConfigs == CurrentConfigs \cup RejectedConfigs
 
+(* The destination's FILE NAME is a dimension of every write: any name the file system accepts is a legal         *)
+(* destination.  The classes below are what the harness instantiates (blanks; single, double and doubled quotes;    *)
+(* brackets and glob characters; ':' ',' '#' '|' ';' '&'; non-ASCII letters; a leading digit; digits only without a *)
+(* suffix; many dots; close to NAME_MAX).  The protocol and the property are the same for all of them, with one     *)
+(* exception the model makes explicit: the staged file is named <uuid4> + all suffixes of the destination, so for a  *)
+(* legal name whose part from the first '.' on is longer than NAME_MAX - 36 bytes the staged name is NOT usable and  *)
+(* open(tmp) fails by itself (ENAMETOOLONG): that write cannot succeed, and must fail like any other failed open.   *)
+NameClasses == {"ordinary", "blanks", "quotes", "brackets_glob", "punctuation", "unicode", "leading_digit",
+                "digits_only", "many_dots", "long", "overlong_suffixes"}
+StagedNameUnusable == name = "overlong_suffixes"
+
 TypeOK == /\ cfg \in AllConfigs
+          /\ name \in NameClasses
           /\ pre \in {"absent", "Old"}
           /\ dest \in DestStates
           /\ tmp \in TmpStates
@@ -123,13 +135,14 @@ Broken(p, h, f, d, t) == (IF DestOK(p, h, d) THEN {} ELSE {"dest"}) \cup (IF Tmp
 Atomic == OutcomeOK(pre, how, fcall, dest, tmp)
 
 ------------------------------------------------------------------------------
-St  == [cfg |-> cfg.name, pre |-> pre, dest |-> dest, tmp |-> tmp, pc |-> pc, how |-> how, fcall |-> fcall]
-StP == [cfg |-> cfg'.name, pre |-> pre', dest |-> dest', tmp |-> tmp', pc |-> pc', how |-> how', fcall |-> fcall']
+St  == [cfg |-> cfg.name, name |-> name, pre |-> pre, dest |-> dest, tmp |-> tmp, pc |-> pc, how |-> how, fcall |-> fcall]
+StP == [cfg |-> cfg'.name, name |-> name', pre |-> pre', dest |-> dest', tmp |-> tmp', pc |-> pc', how |-> how', fcall |-> fcall']
 Log(act, args) == Emit([from |-> St, act |-> act, args |-> args, to |-> StP,
                         ok |-> OutcomeOK(pre', how', fcall', dest', tmp'),
                         broken |-> Broken(pre', how', fcall', dest', tmp')])
 
 Init == /\ cfg \in Configs
+        /\ name \in NameClasses
         /\ pre \in PreStates
         /\ dest = pre
         /\ tmp = "absent"
@@ -139,7 +152,7 @@ Init == /\ cfg \in Configs
         /\ exc = "no"
 
 Running == how = "running"
-Goto(p) == pc' = p /\ UNCHANGED <<cfg, pre, how, fcall, exc>>
+Goto(p) == pc' = p /\ UNCHANGED <<cfg, name, pre, how, fcall, exc>>
 Fail == pc' = "done" /\ how' = "failed"
 
 (* which call the program makes next at each program counter *)
@@ -161,7 +174,7 @@ NextCall(p) ==
 
 (* ---- the calls, succeeding ------------------------------------------------ *)
 MkdtempT  == Running /\ pc = "mkdtemp" /\ tmp' = "empty" /\ UNCHANGED dest /\ Goto("open")
-OpenTmpT  == Running /\ pc = "open" /\ tmp' = "Partial" /\ UNCHANGED dest /\ Goto("block")
+OpenTmpT  == Running /\ pc = "open" /\ ~StagedNameUnusable /\ tmp' = "Partial" /\ UNCHANGED dest /\ Goto("block")
 WriteT    == Running /\ pc = "block" /\ UNCHANGED <<dest, tmp>> /\ Goto("block")
 (* a writer may close the file itself as the last statement of the block (save_to_filename does) *)
 BlockCloseT == Running /\ pc = "block" /\ tmp' = "New" /\ UNCHANGED dest /\ Goto("blockclosed")
@@ -177,7 +190,7 @@ RenameT   == /\ Running
                 \/ pc = "commit" /\ cfg.commit = "replace"
              /\ dest' = tmp /\ tmp' = "empty"
              /\ IF exc = "yes"   \* the rename ran in the `finally` of a failed unlink: the OSError now propagates
-                   THEN /\ Fail /\ UNCHANGED <<cfg, pre, fcall, exc>>
+                   THEN /\ Fail /\ UNCHANGED <<cfg, name, pre, fcall, exc>>
                    ELSE Goto("rmtree")
 (* commit "zip_append" (atomic_write(..., in_zip=...)._close_rename_zip): the member is staged as a plain file and  *)
 (* the DESTINATION archive is opened with ZipFile(dest, "a") and extended in place.  Opening creates an empty     *)
@@ -190,7 +203,7 @@ StoreEndT == /\ Running /\ pc = "zstoring"
              /\ dest' = (IF pre = "Old" THEN "OldNew" ELSE "New") /\ UNCHANGED tmp /\ Goto("rmtree")
 RmtreeT   == /\ Running /\ pc = "rmtree" /\ tmp' = "absent" /\ UNCHANGED dest
              /\ pc' = "done" /\ how' = (IF exc = "ignored" THEN "failed" ELSE "ok")   \* the interrupt reaches the caller
-             /\ UNCHANGED <<cfg, pre, fcall, exc>>
+             /\ UNCHANGED <<cfg, name, pre, fcall, exc>>
 
 (* ---- exception inside the with-block -------------------------------------- *)
 BlockHandler == IF cfg.cleanup = "never" THEN "done"
@@ -201,12 +214,12 @@ EnterHandler == /\ pc' = BlockHandler
 (* without a with-block the staged file is opened lazily at the first write, so formatting can fail before open *)
 RaisePoints == {"block", "blockclosed"} \cup (IF cfg.cleanup = "never" THEN {"open"} ELSE {})
 FormatterRaisesT == /\ Running /\ pc \in RaisePoints
-                    /\ EnterHandler /\ UNCHANGED <<cfg, pre, dest, tmp, fcall>>
+                    /\ EnterHandler /\ UNCHANGED <<cfg, name, pre, dest, tmp, fcall>>
 (* the writer's own handler: os.unlink(destination), errors swallowed *)
 HUnlinkT == Running /\ pc = "h_unlink" /\ dest' = "absent" /\ UNCHANGED tmp /\ Goto("e_close")
 ECloseT  == Running /\ pc = "e_close" /\ UNCHANGED <<dest, tmp>> /\ Goto("e_rmtree")
 ERmtreeT == /\ Running /\ pc = "e_rmtree" /\ tmp' = "absent" /\ UNCHANGED dest
-            /\ Fail /\ UNCHANGED <<cfg, pre, fcall, exc>>
+            /\ Fail /\ UNCHANGED <<cfg, name, pre, fcall, exc>>
 
 (* ---- a call raises OSError ------------------------------------------------- *)
 ToCleanup == pc' = "e_rmtree" /\ exc' = "yes" /\ UNCHANGED how
@@ -215,7 +228,7 @@ FaultT(c) ==
     /\ Running /\ c \in NextCall(pc)
     /\ fcall \in {"none", c}      \* one faulty call site per behaviour; re-issued, the call may fail again (persistent fault)
     /\ fcall' = c
-    /\ UNCHANGED <<cfg, pre, dest>>
+    /\ UNCHANGED <<cfg, name, pre, dest>>
     /\ CASE c = "mkdtemp"  -> Propagate /\ UNCHANGED tmp
          [] c = "open_tmp" -> (IF cfg.cleanup = "always" THEN ToCleanup ELSE Propagate) /\ UNCHANGED tmp
          [] pc = "block"   -> EnterHandler /\ UNCHANGED tmp                  \* write / close inside the block
@@ -244,18 +257,18 @@ InterruptT(c) ==
     IF MistakenForSuccess
       THEN /\ Running /\ fcall \in {"none", c} /\ c \in NextCall(pc)
            /\ fcall' = c /\ exc' = "ignored" /\ pc' = "close"
-           /\ UNCHANGED <<cfg, pre, dest, tmp, how>>
+           /\ UNCHANGED <<cfg, name, pre, dest, tmp, how>>
       ELSE FaultT(c)
 BodyInterruptedT ==
     IF MistakenForSuccess
       THEN /\ Running /\ exc' = "ignored" /\ pc' = "close"
-           /\ UNCHANGED <<cfg, pre, dest, tmp, how, fcall>>
+           /\ UNCHANGED <<cfg, name, pre, dest, tmp, how, fcall>>
       ELSE FormatterRaisesT
 
 (* ---- the process dies ------------------------------------------------------- *)
 CrashT == /\ Running
           /\ pc' = "done" /\ how' = "crashed"
-          /\ UNCHANGED <<cfg, pre, dest, tmp, fcall, exc>>
+          /\ UNCHANGED <<cfg, name, pre, dest, tmp, fcall, exc>>
 
 Mkdtemp == MkdtempT /\ Log("mkdtemp", <<>>)
 OpenTmp == OpenTmpT /\ Log("open_tmp", <<>>)
@@ -274,6 +287,8 @@ HUnlink == HUnlinkT /\ Log("unlink_dest", <<"handler">>)
 EClose == ECloseT /\ Log("close", <<"handler">>)
 ERmtree == ERmtreeT /\ Log("rmtree", <<"handler">>)
 Fault(c) == FaultT(c) /\ Log("Fault", <<c, pc>>)
+(* not an injected fault: open(tmp) fails by itself because the staged name is unusable; nothing else can happen there *)
+OpenRefused == StagedNameUnusable /\ FaultT("open_tmp") /\ Log("Fault", <<"open_tmp", pc, "unusable staged name">>)
 Interrupt(c) == InterruptT(c) /\ Log("Interrupt", <<c, pc>>)
 BodyInterrupted == BodyInterruptedT /\ Log("BodyInterrupted", <<>>)
 Crash == CrashT /\ Log("Crash", <<pc>>)
@@ -296,6 +311,7 @@ Next == \/ Mkdtemp \/ OpenTmp \/ Write \/ BlockClose \/ BlockEnd \/ Close
         \/ FormatterRaises \/ HUnlink \/ EClose \/ ERmtree
         \/ \E c \in Calls : Fault(c) \/ Interrupt(c)
         \/ BodyInterrupted
+        \/ OpenRefused
         \/ Crash
 
 Spec == Init /\ [][Next]_vars
@@ -303,7 +319,7 @@ Spec == Init /\ [][Next]_vars
 (* every behaviour ends: the program counter only moves forward (Write loops are the only cycles) *)
 Terminates == <>[](pc = "done")
 FairSpec == Spec /\ WF_vars(Mkdtemp \/ OpenTmp \/ BlockEnd \/ Close \/ UnlinkDest \/ Rename \/ Rmtree
-                              \/ OpenDest \/ StoreBegin \/ StoreEnd
+                              \/ OpenDest \/ StoreBegin \/ StoreEnd \/ OpenRefused
                               \/ HUnlink \/ EClose \/ ERmtree)
 
 (* without any Crash / Fault / FormatterRaises the write succeeds *)
@@ -312,13 +328,13 @@ FairSpec == Spec /\ WF_vars(Mkdtemp \/ OpenTmp \/ BlockEnd \/ Close \/ UnlinkDes
 CloseFails == Fault("close")
 CloseFailureIsAFailure == (fcall = "close" /\ pc = "done") => (how \in {"failed", "crashed"} /\ dest = pre)
 
-HappyPathSucceeds == [](pc = "done" /\ fcall = "none" /\ how # "crashed" /\ exc = "no" => how = "ok")
+HappyPathSucceeds == [](pc = "done" /\ fcall = "none" /\ ~StagedNameUnusable /\ how # "crashed" /\ exc = "no" => how = "ok")
 
 ------------------------------------------------------------------------------
 (* The verdict table: OutcomeOK over its whole domain, emitted once so that   *)
 (* the harness judges real outcomes with the spec's predicate.                *)
 Judge ==
-    /\ pc = "mkdtemp"
+    /\ pc = "mkdtemp" /\ name = "ordinary"
     /\ \E p \in {"absent", "Old"}, h \in Hows \ {"running"}, f \in Calls \cup {"none", "other"},
           d \in DestStates, t \in TmpStates :
             Emit([act |-> "Judge", args |-> <<p, h, f, d, t>>,
